@@ -4,7 +4,7 @@ import os, sys, json, time, hashlib, traceback, multiprocessing, importlib
 
 VERIF = os.path.dirname(os.path.dirname(os.path.abspath(__file__)))
 REPO = os.environ.get("VERIF_REPO", "/repo")
-KNOWN_PATH = os.path.join(VERIF, "known_findings.json")
+KNOWN_PATH = os.environ.get("VERIF_KNOWN_FINDINGS", os.path.join(VERIF, "known_findings.json"))   # override only for experiments on scratch copies
 
 
 def setup_path():
